@@ -306,6 +306,14 @@ def install(interp):
         "math", exp=Native(m_exp, "exp"), expm1=Native(m_expm1, "expm1"), log=Native(m_log, "log"),
         log1p=Native(m_log1p, "log1p"), sqrt=Native(m_sqrt, "sqrt"), inf=INF, nan=float("nan"),
         isnan=Native(np_isnan, "isnan"), isclose=Native(m_isclose, "isclose"))
+    import itertools as _it
+
+    def zip_longest(ex, *its, fillvalue=None):
+        return list(_it.zip_longest(*[list(ex.iterate_concrete(i)) for i in its], fillvalue=fillvalue))
+
+    def chain(ex, *its):
+        return [x for i in its for x in ex.iterate_concrete(i)]
+    interp.ext_modules.setdefault("itertools", Namespace("itertools", zip_longest=Native(zip_longest, "zip_longest"), chain=Native(chain, "chain")))
     for m in ("typing", "typing_extensions", "abc", "collections.abc", "logging", "warnings"):
         interp.ext_modules.setdefault(m, Namespace(m, TYPE_CHECKING=False, NamedTuple=None, Protocol=None,
                                                    ABC=None, abstractmethod=None, abstractproperty=None))
